@@ -54,7 +54,7 @@ def handleTokens (inp : List String) (obs : String) : Verdict :=
   | some c =>
     let ot := tokens obs
     let nonEmpty := !c.r.isEmpty && !c.q.isEmpty
-    let base := [opTag c, "mode-" ++ c.mode]
+    let base := [opTag c, "mode-" ++ c.mode, shapeTag c]
     if c.mode != "LL" then
       let mr := align c.al (c.call false)
       let m := showRes mr
